@@ -61,7 +61,7 @@ def typeMatch : Err → Nat → Bool
 /-- canonical text used by the line protocol -/
 def str : Err → String
   | .leaf id ty => s!"L{id}:{ty}"
-  | .wrap id ty c => s!"W{id}:{ty}({c.str})"
+  | .wrap id ty c => if ty == 5 then s!"N{id}:{ty}({c.str})" else s!"W{id}:{ty}({c.str})"   -- 5: an aggregate with a nil first slot
   | .join id ty a b => s!"J{id}:{ty}({a.str},{b.str})"
   | .exceededE lv le => s!"X({lv},{le.str})"
   | .exceededV lv => s!"X({lv},-)"
